@@ -192,7 +192,10 @@ type Interp struct {
 	overrides map[string]*ssa.Function
 	ovCache   map[*ssa.Function]*ssa.Function
 	pending   []pendingAssert
+	envSeq    int
 	merge     *mergeState
+	ub, lb    map[int]uint64 // learned unsigned bounds per term id (this path)
+	StatRangeHits int
 	pool      []map[string]uint64 // recent models (any path); candidates for feasibility witnesses
 	poolPos   int
 	StatPoolHits int
@@ -355,6 +358,8 @@ func (in *Interp) resetPath() {
 	in.model = nil
 	in.auxVars = in.auxVars[:0]
 	in.pending = nil
+	in.ub, in.lb = nil, nil
+	in.envSeq = 0
 }
 
 // evalModel evaluates a term under the cached model; ok=false if it cannot (no model, uninterpreted function).
@@ -575,6 +580,7 @@ func (in *Interp) stackString() string {
 // addEvent registers a constraint on the current path (assume / post-assert fact).
 func (in *Interp) addConstraint(t *sym.Term) {
 	in.pc = append(in.pc, t)
+	in.learn(t)
 	if in.sol == nil {
 		return
 	}
@@ -621,6 +627,7 @@ func (in *Interp) decideX(k int, alts []*sym.Term, noCheck bool) int {
 		in.events++
 		if alts != nil {
 			in.pc = append(in.pc, alts[d.choice])
+			in.learn(alts[d.choice])
 		}
 		if in.dpos == len(in.decisions) {
 			// last replayed decision: the frontier starts here; restore the model recorded for this alternative
@@ -702,6 +709,7 @@ func (in *Interp) decideX(k int, alts []*sym.Term, noCheck bool) int {
 		in.synced = in.events
 		if alts != nil {
 			in.pc = append(in.pc, alts[first])
+			in.learn(alts[first])
 		}
 		if alts != nil {
 			if models[first] != nil {
@@ -722,6 +730,11 @@ func (in *Interp) decideX(k int, alts []*sym.Term, noCheck bool) int {
 func (in *Interp) branch(c *sym.Term) bool {
 	if c.IsConst() {
 		return c.C == 1
+	}
+	if v, ok := in.decideByRange(c); ok {
+		// implied by bounds already on the path condition: no fork, no query, no new constraint
+		in.StatRangeHits++
+		return v
 	}
 	if ms := in.merge; ms != nil {
 		// summarising a pure scalar callee: follow / extend the local decision vector, no solver
@@ -1136,6 +1149,21 @@ func (in *Interp) overrideFor(fn *ssa.Function) *ssa.Function {
 	}
 	in.ovCache[fn] = ov
 	return ov
+}
+
+// freshEnv creates a symbolic value produced by the environment (clock, randomness). It is not a harness
+// input: it is not part of the replay sequence (natively the real environment answers).
+func (in *Interp) freshEnv(name string, s sym.Sort) *sym.Term {
+	in.envSeq++
+	if in.opts.ConcreteMode || in.initMode {
+		if s.K == sym.KBool {
+			return in.ctx.False
+		}
+		return in.ctx.BVConst(0, s.W)
+	}
+	t := in.ctx.Var(fmt.Sprintf("env.%s!%d", name, in.envSeq), s)
+	in.auxVars = append(in.auxVars, t)
+	return t
 }
 
 // ---- function calls ----
